@@ -527,11 +527,6 @@ def run(replay=None):
                              'events': [{k: e[k] for k in ('a', 'ok', 'nsig', 'verified', 'verify', 'pushed', 'err', 'rs', 'tx')} for e in got['events']],
                              'txs': [list(bytes.fromhex(x)) for x in got['txs']]})
                 meta.append(('c', job, got, dict(base, ceremony=cer), slot))
-    if os.environ.get('C10_DUMP'):
-        import json
-        json.dump({'recs': recs, 'times': [(j[0], j[1][1:4], len(j[1][5]), r.get('secs') if isinstance(r, dict) else None)
-                                           for j, r in zip(jobs, results)]}, open(os.environ['C10_DUMP'], 'w'))
-
     verdicts, rounds = solve(recs)
     tm['tlc'] = time.time()
 
